@@ -104,7 +104,7 @@ def apply_layout(base, layout: str):
         if base.ndim == 0:
             big = np.zeros((2,), dtype=base.dtype)
             big[1] = base
-            return big[1]
+            return big[1:2].reshape(())
         shp = list(base.shape)
         shp[-1] = shp[-1] * 2 + 1
         big = np.zeros(shp, dtype=base.dtype)
